@@ -765,6 +765,10 @@ func (p *Parser) doHeredocs() {
 	}
 	p.rune() // consume '\n', since we know p.tok == _Newl
 	old := p.quote
+	// Comments seen before the bodies belong to the line of the operators;
+	// keep them away from any statements inside the bodies.
+	accComs := p.accComs
+	p.accComs = nil
 	p.heredocs = p.heredocs[:p.buriedHdocs]
 	for i, r := range hdocs {
 		if p.err != nil {
@@ -798,6 +802,7 @@ func (p *Parser) doHeredocs() {
 		p.hdocStops = p.hdocStops[:len(p.hdocStops)-1]
 	}
 	p.quote = old
+	p.accComs = append(accComs, p.accComs...)
 }
 
 func (p *Parser) got(tok token) bool {
